@@ -76,7 +76,7 @@ def main():
     rnd = random.Random(seed)
     edge = {'int': [0, 1, -1, 7, -7, 2**31 - 1, -2**31], 'long': [0, 1, -1, 2**31, -2**63, 2**63 - 1], 'float': [0.0, 1.5, -2.25]}
     # the boundary cases first (division and remainder by 0 and -1, extreme values), then seeded random ones
-    for t1, t2 in (('long', 'long'), ('int', 'int'), ('int', 'long')):
+    for t1, t2 in (('long', 'long'), ('int', 'int'), ('int', 'long'), ('long', 'int')):
         for a in (edge[t1][-1], edge[t1][-2], 5):
             for b in (-1, 0, 3):
                 for op in '%/': check_binary(bloch, t1, a, t2, b, op)
